@@ -357,9 +357,16 @@ namespace chaiscript {
 
     static void enable_conversion_saves(Conversion_Saves &t_saves, bool t_val) { t_saves.enabled = t_val; }
 
-    std::vector<Boxed_Value> take_saves(Conversion_Saves &t_saves) {
+    /// Removes and returns the saved conversion results from position t_from on
+    std::vector<Boxed_Value> take_saves(Conversion_Saves &t_saves, const std::size_t t_from = 0) {
       std::vector<Boxed_Value> ret;
-      std::swap(ret, t_saves.saves);
+      if (t_from == 0) {
+        std::swap(ret, t_saves.saves);
+      } else if (t_from < t_saves.saves.size()) {
+        const auto first = t_saves.saves.begin() + static_cast<std::ptrdiff_t>(t_from);
+        ret.assign(std::make_move_iterator(first), std::make_move_iterator(t_saves.saves.end()));
+        t_saves.saves.erase(first, t_saves.saves.end());
+      }
       return ret;
     }
 
